@@ -131,6 +131,14 @@ static char lastkind = '-';   /* which operation made the last indexed access: g
 static var ET;                /* element type of Array/List: Int or Probe */
 static var valobj[8];         /* value carriers 0..nvals (index nvals: a value that is never stored) */
 static var wrongobj;          /* an object of the wrong element type (String) */
+
+/* element types for cross-type assignment (the target is built and filled with ANOTHER element type) */
+struct Blob20 { char b[20]; };
+var Blob20 = Cello(Blob20);
+enum { OT_INT, OT_PROBE, OT_BLOB20, OT_STRING, OT_N };
+static const char* OTN[] = { "Int", "Probe", "Blob20", "String" };
+static var ot_type(int t) { return t == OT_INT ? Int : t == OT_PROBE ? Probe : t == OT_BLOB20 ? Blob20 : String; }
+static var ot_int[3], ot_probe[3];     /* carriers */
 static int64_t led_base;
 static char lastop[96] = "init";
 static int corrupt;           /* the last violation left a container in a state that is not safe to delete */
@@ -578,7 +586,8 @@ static void cleanup(void) {
 
 enum { T_PUSH, T_POP, T_APPEND, T_SET, T_PUSHAT, T_POPAT, T_REM, T_RESIZE, T_SORT, T_COPY, T_CONCAT, T_ASSIGN,
        T_B_COPY, T_B_ASSIGN_FROM_A, T_A_ASSIGN_FROM_B, T_B_DEL, T_B_PUSH, T_B_POP, T_SWAP,
-       T_AL_PUSH, T_AL_APPEND, T_AL_SET, T_AL_PUSHAT, T_AL_CONCAT_SELF, T_AL_ASSIGN_SELF,
+       T_AL_PUSH, T_AL_APPEND, T_AL_SET, T_AL_PUSHAT, T_AL_CONCAT_SELF, T_AL_ASSIGN_SELF, T_AL_REM, T_AL_MEM,
+       T_ASSIGN_OTHER, T_B_ASSIGN_OTHER, T_DUPTUPLE,
        T_P_POISON, T_P_CONCAT, T_GET, T_MEM, T_ASSIGN_VIEW,
        T_F_IDX, T_F_REM_ABSENT, T_F_WRONG, T_F_NULL, T_F_NULLIDX, T_F_CONCAT_NULL, T_F_ASSIGN_NULL, T_F_BADSRC, T_F_STACK };
 enum { FO_GET, FO_SET, FO_POPAT, FO_PUSHAT, FO_PUSH, FO_APPEND };
@@ -652,6 +661,27 @@ static void make_alphabet(void) {
     for (int i = 0; i < maxlen; i++) for (int k = 0; k < maxlen; k++) addop(T_AL_PUSHAT, k, 0, i, "push_at(A,get(A,%d),%d)", k, i);
     if (alias & 4) addop(T_AL_CONCAT_SELF, 0, 0, 0, "concat(A,A)");
     if (alias & 8) addop(T_AL_ASSIGN_SELF, 0, 0, 0, "assign(A,A)");
+  }
+  if (alias & 1) {
+    /* search-by-value calls whose argument is an own element: the FIRST equal element goes, whichever one was passed */
+    for (int k = 0; k < maxlen; k++) addop(T_AL_REM, k, 0, 0, "rem(A,get(A,%d))", k);
+    for (int k = 0; k < maxlen; k++) addop(T_AL_MEM, k, 0, 0, "mem(A,get(A,%d))", k);
+  }
+  if (kindA != K_TUPLE && !picky) {
+    /* cross-type assignment: A = assign(container of ANOTHER element type holding f elements, A) */
+    for (int t = 0; t < OT_N; t++) {
+      if (ot_type(t) is ET) continue;
+      for (int f = 0; f <= 3; f++) addop(T_ASSIGN_OTHER, t, f, 0, "A=assign(%s-of-%s[%d items],A)", KN[kindA], OTN[t], f);
+    }
+    if (two && kindB != K_TUPLE) for (int t = 0; t < OT_N; t++) if (ot_type(t) isnt ET) addop(T_B_ASSIGN_OTHER, t, 2, 0, "B=assign(%s-of-%s[2 items],A)", KN[kindB], OTN[t]);
+    /* sources that are Tuples holding ONE OBJECT TWICE (iterating such a Tuple is the known defect D16, but len/get work,
+       and assign / new copy through len+get): a a, a a b, a b a.  Run in a forked child under a 3 s limit, in the empty
+       state only (the calls do not depend on A) */
+    if (!probe) for (int w = 0; w < 3; w++) for (int pat = 0; pat < 3; pat++) {
+      static const char* wn[] = { "assign(fresh,T)", "assign(non-empty,T)", "new(kind,Int,T...)" };
+      static const char* pn[] = { "(a,a)", "(a,a,b)", "(a,b,a)" };
+      addop(T_DUPTUPLE, w, pat, 0, "%s T=%s same object twice", wn[w], pn[pat]);
+    }
   }
   if (picky) {
     static const int fo[] = { FO_PUSH, FO_APPEND, FO_SET, FO_PUSHAT };
@@ -907,6 +937,71 @@ static int apply_stack_tuple(int so) {
   return VF_OK;
 }
 
+/* a fresh raw container of this kind whose element type is `t`, holding f elements */
+static var build_other(int kind, int t, int f) {
+  var x = kind == K_ARRAY ? (var)new_raw(Array, ot_type(t)) : (var)new_raw(List, ot_type(t));
+  for (int i = 0; i < f; i++) {
+    switch (t) {
+    case OT_INT:    push(x, ot_int[i % 3]); break;
+    case OT_PROBE:  push(x, ot_probe[i % 3]); break;
+    case OT_BLOB20: push(x, $(Blob20, { "0123456789abcdefghi" })); break;
+    default:        push(x, $S("a String element that owns a heap buffer")); break;
+    }
+  }
+  return x;
+}
+
+/* assign(target of another element type, A): contents and element type must be A's afterwards, the
+   target's old elements finalised exactly once (ledger), nothing else changed.  Returns the new container or NULL. */
+static var assign_into_other(int kind, int t, int f) {
+  int64_t tt[MAXN + 8];
+  int64_t live0 = vf_led_live;
+  vf_led_err[0] = 0;
+  var y = build_other(kind, t, f);
+  if (t == OT_PROBE && vf_led_live != live0 + f) { vf_violation(L("setup"), NULL, "harness: Probe fill did not construct %d elements", f); return NULL; }
+  var e = VF_CATCH(assign(y, CA));
+  if (e) { corrupt = 1; vf_violation(L("raises"), NULL, "assign(%s of %s holding %d items, A) raised %s", KN[kind], OTN[t], f, vf_exc_name(e)); return NULL; }
+  if (vf_led_err[0]) { corrupt = 1; vf_violation(L("ledger"), NULL, "%s", vf_led_err); vf_led_err[0] = 0; return NULL; }
+  int64_t want = live0 + (probe ? MA.n : 0);
+  if (vf_led_live != want) {
+    corrupt = 1;
+    vf_violation(L(vf_led_live > want ? "old-elements-not-finalised" : "too-many-finalised"), NULL, "after assign into a %s of %s that held %d items: %" PRId64 " Probe elements live, expected %" PRId64, KN[kind], OTN[t], f, vf_led_live - live0, want - live0);
+    return NULL;
+  }
+  if (iter_type(y) isnt ET) { vf_violation(L("element-type"), NULL, "iter_type of the target is not the source's element type"); del_raw(y); return NULL; }
+  int saved = light; light = 0;
+  int k = snap(y, tt, MAXN + 8);
+  light = saved;
+  if (!same_as_model(&MA, tt, k)) { vf_violation(L("wrong-contents"), NULL, "the target does not hold the source's %d elements", MA.n); del_raw(y); return NULL; }
+  return y;
+}
+
+/* child: sources that hold one object twice */
+static struct { int w, pat; } dupargs;
+static void duptuple_child(void* arg) {
+  (void)arg;
+  var a = new_raw(Int, $I(0)), b = new_raw(Int, $I(1));
+  static const int pv[3][3] = { {0,0,-1}, {0,0,1}, {0,1,0} };
+  const int* p = pv[dupargs.pat]; int n = p[2] < 0 ? 2 : 3;
+  var it[3]; for (int i = 0; i < n; i++) it[i] = p[i] ? b : a;
+  var y;
+  if (dupargs.w == 2) {
+    y = n == 2 ? (kindA == K_ARRAY ? (var)new_raw(Array, Int, it[0], it[1]) : (var)new_raw(List, Int, it[0], it[1]))
+               : (kindA == K_ARRAY ? (var)new_raw(Array, Int, it[0], it[1], it[2]) : (var)new_raw(List, Int, it[0], it[1], it[2]));
+  } else {
+    var t = n == 2 ? new_raw(Tuple, it[0], it[1]) : new_raw(Tuple, it[0], it[1], it[2]);
+    y = kindA == K_ARRAY ? (var)new_raw(Array, Int) : (var)new_raw(List, Int);
+    if (dupargs.w == 1) { push(y, $I(2)); push(y, $I(2)); push(y, $I(1)); push(y, $I(0)); }
+    assign(y, t);
+  }
+  if (len(y) != (size_t)n) _exit(3);
+  for (int i = 0; i < n; i++) if (elemval(get(y, $I(i))) != p[i]) _exit(4);
+  for (int i = 0; i < n; i++) if (elemval(get(y, $I(-(int64_t)(n - i)))) != p[i]) _exit(4);
+  int64_t out[8]; if (walk(y, out, 8) != n) _exit(5);
+  for (int i = 0; i < n; i++) if (out[i] != p[i]) _exit(5);
+  _exit(0);
+}
+
 static int apply(int op) {
   struct opd* o = &ops[op];
   int n = MA.n;
@@ -1119,6 +1214,56 @@ static int apply(int op) {
     if (isset) MA.v[i] = v; else if (isat) m_ins(&MA, i, v); else MA.v[MA.n++] = v;
     lastidx = (isset || isat) ? i : k; lastpos = (isset || isat) ? i : (lastpos == k ? k : -1); lastkind = 'a';
     return VF_OK; }
+  case T_AL_REM: {
+    int k = o->a;
+    if (k >= n) return VF_SKIP;
+    setop("rem/own-element");
+    e = VF_CATCH(g_var = get(CA, $I(k)));
+    if (e) return raised(e, "get");
+    el = g_var;
+    int first = m_find(&MA, MA.v[k]);
+    lastidx = k; lastpos = k; lastkind = 'a';
+    e = VF_CATCH(rem(CA, el));
+    if (e) return raised(e, "rem of an own element");
+    m_del(&MA, first);       /* the FIRST element equal to the argument goes, not necessarily the one passed */
+    return VF_OK; }
+  case T_AL_MEM: {
+    int k = o->a;
+    if (k >= n) return VF_SKIP;
+    setop("mem/own-element");
+    e = VF_CATCH({ g_var = get(CA, $I(k)); g_b = mem(CA, g_var); });
+    if (e) return raised(e, "mem of an own element");
+    lastidx = k; lastpos = k; lastkind = 'a';
+    if (!g_b) { vf_violation(L("value"), NULL, "mem(A, get(A,%d)) is false", k); return VF_BAD; }
+    return VF_OK; }
+
+  case T_ASSIGN_OTHER: {
+    setop("assign-into-nonempty-other-type/%s-%d-items", OTN[o->a], o->b);
+    var y = assign_into_other(kindA, o->a, o->b);
+    if (!y) return VF_BAD;
+    del_c(CA, MA.managed); CA = y; MA.managed = 0;
+    lastidx = -1; lastpos = -1; lastkind = '-';
+    return VF_OK; }
+  case T_B_ASSIGN_OTHER: {
+    if (CB) { del_c(CB, MB.managed); CB = NULL; MB.exists = 0; }
+    setop("B=assign-into-nonempty-other-type/%s-%d-items", OTN[o->a], o->b);
+    var y = assign_into_other(kindB, o->a, o->b);
+    if (!y) return VF_BAD;
+    CB = y; MB = MA; MB.kind = kindB; MB.managed = 0; MB.exists = 1;
+    return VF_OK; }
+
+  case T_DUPTUPLE: {
+    if (n != 0 || MB.exists) return VF_SKIP;
+    static const char* wl[] = { "assign-into-fresh", "assign-into-nonempty", "new" };
+    setop("%s/from-tuple-with-repeated-object", wl[o->a]);
+    dupargs.w = o->a; dupargs.pat = o->b;
+    struct vf_child c = vf_fork_run(duptuple_child, NULL, 3);
+    vf_watchdog(60);     /* the child inherited and consumed nothing of ours; re-arm */
+    if (c.timed_out) { vf_violation(L("does-not-terminate"), NULL, "%s did not return within 3 s (len and get of such a Tuple work; only iterating it is the known defect D16)", o->name); return VF_BAD; }
+    if (c.signaled) { vf_violation(L("crash"), NULL, "%s died with signal %d", o->name, c.sig); return VF_BAD; }
+    if (c.status != 0) { vf_violation(L(c.status == 3 ? "len" : c.status == 4 ? "get-value" : c.status == 5 ? "iter-value" : "raises"), NULL, "%s: the result does not hold the tuple's items (child status %d)", o->name, c.status); return VF_BAD; }
+    return VF_OK; }
+
   case T_AL_CONCAT_SELF:
     if (2 * n > maxlen) return VF_SKIP;
     setop("concat/self");
@@ -1834,6 +1979,7 @@ int main(int argc, char** argv) {
   for (int v = 0; v <= nvals; v++) valobj[v] = new_raw(ET, $I(v));
   if (probe && kindA == K_TUPLE) for (int v = 0; v <= nvals; v++) valobj[v] = new_raw(Int, $I(v));
   wrongobj = new_raw(String, $S("zz"));
+  for (int v = 0; v < 3; v++) { ot_int[v] = new_raw(Int, $I(v)); ot_probe[v] = new_raw(Probe, $I(v)); }
   make_sources();
   /* warm up the per-thread exception object (its message buffer is allocated on first use) */
   { var e = VF_CATCH(throw(ValueError, "warm-up %s %s %s", $S("................................"), $S("................................"), $S("................................"))); (void)e; }
